@@ -15,6 +15,11 @@ func run(c *Ctx) {
 		scripts = append(scripts, ml.GenScript(c.Rng, "mixed", 40))
 	}
 	ml.RunScripts(c, "c01", scripts)
+	var fl []ml.FlvScript
+	for i := 0; i < c.Budget(120, 2500); i++ {
+		fl = append(fl, ml.GenFlvScript(c.Rng))
+	}
+	ml.RunFlvScripts(c, "c01", fl)
 	for _, hevc := range []bool{false, true} {
 		ml.RecordOutcome(c, ml.ScJoinRace(false, hevc), "c01")
 		ml.RecordOutcome(c, ml.ScJoinRace(true, hevc), "c01")
